@@ -372,7 +372,7 @@ def defs_run(case, ctx):
             c2 = copy.copy(ct)
     except Exception as e:
         sig = ""
-        if isinstance(e, pickle.PicklingError) and name in ("ReadOnly", "Disallow"):
+        if isinstance(e, pickle.PicklingError) and ("trait_types.ReadOnly" in str(e) or "trait_types.Disallow" in str(e)):
             sig = "/singleton-instance-name"
         elif isinstance(e, TypeError) and "code object" in str(e):
             sig = "/dynamic-code-object"
